@@ -90,6 +90,8 @@ impl Wake for TaskWaker {
 // ANCHOR: run_all
 impl QueuingExecutor {
     pub fn run_all(&self) {
+        #[cfg(crux_verif)]
+        crate::verif::point("exec.run_all.enter");
         // we read off both queues and execute the tasks we receive.
         // Since either queue can generate work for the other queue,
         // we read from them in a loop until we are sure both queues
@@ -97,6 +99,8 @@ impl QueuingExecutor {
         let mut did_some_work = true;
 
         while did_some_work {
+            #[cfg(crux_verif)]
+            crate::verif::point("exec.run_all.loop");
             did_some_work = false;
             while let Ok(task) = self.spawn_queue.try_recv() {
                 let task_id = self
@@ -119,6 +123,8 @@ impl QueuingExecutor {
                         // FIXME: are we potentially sending ourselves `Unavailable` and reading it
                         // in a loop - busy looping here?
                         self.ready_sender.send(task_id).expect("could not requeue");
+                        #[cfg(crux_verif)]
+                        crate::verif::yield_point("exec.unavailable");
                     }
                     RunTask::Missing => {
                         // This is possible if a naughty future sends a wake notification while
@@ -144,6 +150,8 @@ impl QueuingExecutor {
 
         // free the mutex so other threads can make progress
         drop(lock);
+        #[cfg(crux_verif)]
+        crate::verif::point("exec.run_task.taken");
 
         let waker = Arc::new(TaskWaker {
             task_id,
@@ -154,6 +162,8 @@ impl QueuingExecutor {
 
         // poll the task
         if task.as_mut().poll(context).is_pending() {
+            #[cfg(crux_verif)]
+            crate::verif::point("exec.run_task.polled");
             // If it's still pending, put the future back in the slot
             self.tasks
                 .lock()
@@ -163,10 +173,24 @@ impl QueuingExecutor {
                 .replace(task);
             RunTask::Suspended
         } else {
+            #[cfg(crux_verif)]
+            crate::verif::point("exec.run_task.polled");
             // otherwise the future is completed and we can free the slot
             self.tasks.lock().unwrap().remove(*task_id as usize);
             RunTask::Completed
         }
+    }
+}
+
+#[cfg(crux_verif)]
+impl QueuingExecutor {
+    /// (task slots in use, queued spawns, queued wake-ups)
+    pub(crate) fn verif_stats(&self) -> (usize, usize, usize) {
+        (
+            self.tasks.lock().expect("Task slab poisoned").len(),
+            self.spawn_queue.len(),
+            self.ready_queue.len(),
+        )
     }
 }
 
